@@ -28,10 +28,21 @@
 (*                      found); FALSE = repaired                           *)
 (*   PublishEarly       TRUE = the latest version is published before the  *)
 (*                      batch is committed (repaired); FALSE = as found    *)
+(*   FastReadAtomic     FALSE = the lock is released between the disk read *)
+(*                      of a fast node and the cache fill (a plausible     *)
+(*                      "do not hold the lock across I/O" change): TLC     *)
+(*                      refutes ReadCommitted; the storage-gate replay of  *)
+(*                      the harness forces the same schedule on the code   *)
+(*   AsyncPrune         background pruning (AsyncPruningOption): the       *)
+(*                      request is recorded, the pruner checks it under    *)
+(*                      the lock (latest version, pins), then deletes one  *)
+(*                      version per step through the writer's batch        *)
 (***************************************************************************)
 EXTENDS Integers, Sequences, FiniteSets, TLC
 
-CONSTANTS K, Readers, MaxOps, CloneNilsChildren, PublishEarly, CacheShared
+CONSTANTS K, Readers, MaxOps, CloneNilsChildren, PublishEarly, CacheShared,
+          FastReadAtomic,   \* TRUE = GetFastNode holds the lock from the cache lookup to the cache fill (as in the code)
+          AsyncPrune        \* TRUE = DeleteVersionsTo only records the request; a background goroutine carries it out
 
 Keys == 1..K
 Vals == {1, 2}
@@ -48,9 +59,11 @@ VARIABLES vm,        \* committed versions: sequence of maps Keys -> Vals \cup {
           pins,      \* function version -> number of open exports
           wpc, wops, \* writer: program counter, operations done
           wtouch,    \* the writer is inside clone() of the shared persisted root object: "none", "left", "right"
+          preq,      \* background pruning: requested target (nodeDB.pruneVersion, 0 = none)
+          ptgt,      \* background pruning: target the pruner is working on (0 = idle)
           rpc, rver, rkey, rfn, rres, rfield  \* readers
 
-vars == <<vm, wm, fd, fc, batch, pendc, latest, first, pins, wpc, wops, wtouch, rpc, rver, rkey, rfn, rres, rfield>>
+vars == <<vm, wm, fd, fc, batch, pendc, latest, first, pins, wpc, wops, wtouch, preq, ptgt, rpc, rver, rkey, rfn, rres, rfield>>
 
 Entry(v, ver) == [val |-> v, ver |-> ver]
 NoFn == [nofn |-> TRUE]        \* no fast node
@@ -64,11 +77,11 @@ Init ==
   /\ batch = <<>> /\ pendc = <<>>
   /\ latest = 1 /\ first = 1
   /\ pins = [v \in 1..4 |-> 0]
-  /\ wpc = "idle" /\ wops = 0 /\ wtouch = "none"
+  /\ wpc = "idle" /\ wops = 0 /\ wtouch = "none" /\ preq = 0 /\ ptgt = 0
   /\ rpc = [r \in Readers |-> "idle"] /\ rver = [r \in Readers |-> 0] /\ rkey = [r \in Readers |-> 1]
   /\ rfn = [r \in Readers |-> NoFn] /\ rres = [r \in Readers |-> None] /\ rfield = [r \in Readers |-> "none"]
 
-W(vs) == UNCHANGED <<rpc, rver, rkey, rfn, rres, rfield>> /\ UNCHANGED vs
+W(vs) == UNCHANGED <<rpc, rver, rkey, rfn, rres, rfield, preq, ptgt>> /\ UNCHANGED vs
 
 ---------------------------------------------------------------------------
 (* writer *)
@@ -123,19 +136,48 @@ WPublish ==
   /\ latest' = Len(vm) /\ wpc' = "idle"
   /\ W(<<vm, wm, fd, fc, batch, pendc, first, pins, wops, wtouch>>)
 \* DeleteVersionsTo(n): refused if a version in range is pinned (checked under the lock)
+\* contract of the property: the writer only deletes versions nobody is reading (an open export is
+\* different: it pins its version and the request must be refused)
+Unread(n) == \A r \in Readers : rpc[r] \in {"get1", "fill", "get2", "walk"} => rver[r] > n
 WPrune(n) ==
+  /\ ~AsyncPrune /\ Unread(n)
   /\ wpc = "idle" /\ wops < MaxOps /\ n >= first /\ n < latest
   /\ wops' = wops + 1
   /\ IF \E v \in first..n : pins[v] > 0 THEN first' = first ELSE first' = n + 1
   /\ W(<<vm, wm, fd, fc, batch, pendc, latest, pins, wpc, wtouch>>)
+\* background pruning. [L] DeleteVersionsTo(n) records the request and returns
+WPruneAsync(n) ==
+  /\ AsyncPrune /\ Unread(n)
+  /\ wpc = "idle" /\ wops < MaxOps /\ n >= first /\ n < latest /\ n > preq
+  /\ wops' = wops + 1 /\ preq' = n
+  /\ UNCHANGED <<vm, wm, fd, fc, batch, pendc, latest, first, pins, wpc, wtouch, ptgt, rpc, rver, rkey, rfn, rres, rfield>>
+\* the pruner picks the request up and checks it under the lock; a refused request is tried again later
+PPick ==
+  /\ AsyncPrune /\ ptgt = 0 /\ preq # 0
+  /\ IF preq < latest /\ ~(\E v \in first..preq : pins[v] > 0) THEN ptgt' = preq ELSE ptgt' = 0
+  /\ UNCHANGED <<vm, wm, fd, fc, batch, pendc, latest, first, pins, wpc, wops, wtouch, preq, rpc, rver, rkey, rfn, rres, rfield>>
+\* one version per step: its orphans go to the writer's batch, the first version moves on
+PDelete ==
+  /\ ptgt # 0 /\ first <= ptgt
+  /\ first' = first + 1
+  /\ UNCHANGED <<vm, wm, fd, fc, batch, pendc, latest, pins, wpc, wops, wtouch, preq, ptgt, rpc, rver, rkey, rfn, rres, rfield>>
+\* [L] done: the request is cleared unless a newer one arrived
+PDone ==
+  /\ ptgt # 0 /\ first > ptgt
+  /\ preq' = IF preq <= ptgt THEN 0 ELSE preq
+  /\ ptgt' = 0
+  /\ UNCHANGED <<vm, wm, fd, fc, batch, pendc, latest, first, pins, wpc, wops, wtouch, rpc, rver, rkey, rfn, rres, rfield>>
 
 ---------------------------------------------------------------------------
 (* readers *)
-R(r, vs) == UNCHANGED <<vm, wm, fd, batch, pendc, latest, first, wpc, wops, wtouch>> /\ UNCHANGED vs
+R(r, vs) == UNCHANGED <<vm, wm, fd, batch, pendc, latest, first, wpc, wops, wtouch, preq, ptgt>> /\ UNCHANGED vs
 
 \* GetImmutable(v) of a published, retained version; optionally pinned by an export
+\* contract of the property: the writer only deletes versions nobody reads, so no read starts on a version
+\* that a recorded request is going to delete
+Scheduled(v) == v <= preq \/ v <= ptgt
 RStart(r, v, k, pin) ==
-  /\ rpc[r] = "idle" /\ v >= first /\ v <= latest /\ v <= Len(vm)
+  /\ rpc[r] = "idle" /\ v >= first /\ v <= latest /\ v <= Len(vm) /\ ~Scheduled(v)
   /\ rver' = [rver EXCEPT ![r] = v] /\ rkey' = [rkey EXCEPT ![r] = k]
   /\ pins' = IF pin THEN [pins EXCEPT ![v] = @ + 1] ELSE pins
   /\ rpc' = [rpc EXCEPT ![r] = IF pin THEN "pinned" ELSE "get1"]
@@ -151,9 +193,17 @@ RGet1(r) ==
          hit == fc[k] # Miss
          fn == IF hit THEN fc[k] ELSE fd[k] IN
      /\ rfn' = [rfn EXCEPT ![r] = fn]
-     /\ fc' = IF ~hit /\ fn # NoFn THEN [fc EXCEPT ![k] = fn] ELSE fc
-  /\ rpc' = [rpc EXCEPT ![r] = "get2"]       \* verifYield("get:fastnode")
+     /\ IF FastReadAtomic \/ hit \/ fn = NoFn
+        THEN /\ fc' = IF ~hit /\ fn # NoFn THEN [fc EXCEPT ![k] = fn] ELSE fc
+             /\ rpc' = [rpc EXCEPT ![r] = "get2"]       \* verifYield("get:fastnode")
+        ELSE \* the lock is released after the disk read; the cache is filled in a second critical section
+             /\ fc' = fc /\ rpc' = [rpc EXCEPT ![r] = "fill"]
   /\ R(r, <<pins, rver, rkey, rres, rfield>>)
+RFill(r) ==
+  /\ rpc[r] = "fill"
+  /\ fc' = [fc EXCEPT ![rkey[r]] = rfn[r]]
+  /\ rpc' = [rpc EXCEPT ![r] = "get2"]
+  /\ R(r, <<pins, rver, rkey, rfn, rres, rfield>>)
 \* [L] getCachedLatestVersion, then the guard; a walk reads immutable nodes: its result is the version's value
 RGet2(r) ==
   /\ rpc[r] = "get2"
@@ -165,7 +215,7 @@ RGet2(r) ==
   /\ R(r, <<fc, pins, rver, rkey, rfn, rfield>>)
 \* a tree walk through the shared root object: [U] read node.leftNode / node.rightNode
 RWalk(r, v) ==
-  /\ rpc[r] = "idle" /\ v >= first /\ v <= latest /\ v <= Len(vm)
+  /\ rpc[r] = "idle" /\ v >= first /\ v <= latest /\ v <= Len(vm) /\ ~Scheduled(v)
   /\ rver' = [rver EXCEPT ![r] = v]
   /\ rpc' = [rpc EXCEPT ![r] = "walk"] /\ rfield' = [rfield EXCEPT ![r] = "left"]
   /\ R(r, <<fc, pins, rkey, rfn, rres>>)
@@ -181,10 +231,11 @@ RDone(r) ==
 Next ==
   \/ \E k \in Keys, v \in Vals \cup {None} : WSet(k, v)
   \/ WCloneWrite \/ WSaveStart \/ WFlush \/ WCommit \/ WPublish
-  \/ \E n \in 1..3 : WPrune(n)
+  \/ \E n \in 1..3 : WPrune(n) \/ WPruneAsync(n)
+  \/ PPick \/ PDelete \/ PDone
   \/ \E r \in Readers :
        \/ \E v \in 1..3, k \in Keys, pin \in BOOLEAN : RStart(r, v, k, pin)
-       \/ RUnpin(r) \/ RGet1(r) \/ RGet2(r) \/ RDone(r)
+       \/ RUnpin(r) \/ RGet1(r) \/ RFill(r) \/ RGet2(r) \/ RDone(r)
        \/ \E v \in 1..3 : RWalk(r, v)
        \/ RWalkRead(r)
 Spec == Init /\ [][Next]_vars
@@ -198,4 +249,8 @@ NoRace == \A r \in Readers :
    ~(CacheShared /\ wpc = "clone" /\ rpc[r] = "walk" /\ rver[r] = Len(vm) /\ rfield[r] = wtouch)
 \* a pinned version is never deleted
 PinHolds == \A v \in 1..4 : pins[v] > 0 => v >= first
+\* a version somebody is reading is retained (the walk reads nodes of that version from the store)
+ReadersRetained == \A r \in Readers : rpc[r] \in {"get1", "fill", "get2", "walk", "pinned"} => rver[r] >= first
+\* the latest version is never deleted, whatever was requested
+LatestKept == first <= latest
 =============================================================================
